@@ -42,3 +42,16 @@ def specs_linalg_misc(tier):
     s = [("contracts.linalg_misc", "unit_is_diagonal", {"kind": k, "timeout_ms": t}) for k in ("zero", "masked", "sympy", "dense", "sparse", "other")]
     s.append(("contracts.linalg_misc", "unit_aslinearoperator", {"timeout_ms": t}))
     return s
+
+
+def specs_head(tier):
+    """the head of block_diagonalize (entry -> operator_to_BlockSeries): wiring of converters, eigenvector normalisation / check and implicit-mode solvers"""
+    t = 60000 if tier == "thorough" else 20000
+    cfgs = [dict(), dict(vectors="full"), dict(vectors="full", hermitian=False), dict(vectors="partial"), dict(vectors="partial", direct=False, options="foreign"),
+            dict(vectors="pairs-partial", hermitian=False, options="tolerance"), dict(vectors="pairs-full", hermitian=False), dict(vectors="pairs-full", hermitian=True),
+            dict(vectors="partial", solver="custom"), dict(solver="custom", fully=True), dict(vectors="partial", h0_kind="sympy"), dict(vectors="partial", h_shape="blocks"),
+            dict(vectors="partial", vec_kind="sparse"), dict(vectors="pairs-partial", hermitian=False, direct=False), dict(vectors="partial", hermitian=False, direct=False)]
+    if tier == "thorough":
+        cfgs += [dict(vectors="partial", h0_kind="sparse", options="tolerance"), dict(vectors="pairs-partial", hermitian=False, solver="custom"), dict(vectors="full", h0_kind="sympy"),
+                 dict(vectors="partial", options="foreign"), dict(vectors="full", fully=True), dict(vectors="partial", direct=False, vec_kind="sparse")]
+    return [("contracts.bd_head", "unit_bd_head", dict(c, timeout_ms=t)) for c in cfgs]
